@@ -9,12 +9,13 @@ package ruleset
 import (
 	"errors"
 	"regexp"
+	"slices"
 	"strings"
 )
 
 type RegexpMatcher struct {
-	include *regexp.Regexp
-	exclude *regexp.Regexp
+	include []*regexp.Regexp
+	exclude []*regexp.Regexp
 	inverse bool
 }
 
@@ -26,23 +27,12 @@ func NewRegexpMatcher(include, exclude []*regexp.Regexp) (*RegexpMatcher, error)
 		return nil, ErrNoIncludeRules
 	}
 
-	build := func(rules []*regexp.Regexp) *regexp.Regexp {
-		var regex strings.Builder
-		for i := range rules {
-			if i > 0 {
-				regex.WriteString("|")
-			}
-			regex.WriteString(rules[i].String())
-		}
-		if s := regex.String(); s != "" {
-			return regexp.MustCompile(s)
-		}
-		return nil
-	}
-
+	// Rules are kept and evaluated one by one. Joining them into a single
+	// alternation lets inline flags (e.g. "(?i)") of one rule leak into the
+	// rules that follow it, and makes the result depend on rule order.
 	return &RegexpMatcher{
-		include: build(include),
-		exclude: build(exclude),
+		include: slices.Clone(include),
+		exclude: slices.Clone(exclude),
 	}, nil
 }
 
@@ -66,10 +56,17 @@ func (r *RegexpMatcher) Match(s string) bool {
 }
 
 func (r *RegexpMatcher) match(s string) bool {
-	if r.exclude != nil && r.exclude.MatchString(s) {
-		return false
+	for _, re := range r.exclude {
+		if re.MatchString(s) {
+			return false
+		}
 	}
-	return r.include != nil && r.include.MatchString(s)
+	for _, re := range r.include {
+		if re.MatchString(s) {
+			return true
+		}
+	}
+	return false
 }
 
 type RegexpListItem struct {
